@@ -490,6 +490,12 @@ class Interp:
             b = self.expr(e.comparators[0], fr)
             if type(e.ops[0]) not in CMPOPS:
                 raise Unsupported("cmp op")
+            if isinstance(a, str) and isinstance(b, str):
+                if isinstance(e.ops[0], ast.Eq):
+                    return alu.b2f(a == b)
+                if isinstance(e.ops[0], ast.NotEq):
+                    return alu.b2f(a != b)
+                raise Unsupported('string ordering')
             return CMPOPS[type(e.ops[0])](self.num(a), self.num(b))
         if isinstance(e, ast.IfExp):
             t = self.num(self.expr(e.test, fr))
